@@ -299,15 +299,20 @@ theorem hprime_block_init_src_eq (output h0 : Bytes) (col lane : Nat) (hl : outp
 theorem subU_32 (bytes : Nat) (h : bytes > 64) : subU bytes 32 = some (bytes - 32) := by
   simp only [subU]; rw [if_pos (by omega)]
 
-/-- the `while bytes > 64` loop = the model's loop (state components permuted), for every buffer -/
-theorem hprime_loop1_eq : ∀ (fuel : Nat) (output : Bytes) (bytes pos : Nat) (v : Bytes),
-    (hprime_loop1_src fuel output bytes pos v).map (fun r => (r.1, r.2.2.2, r.2.1, r.2.2.1)) = hprime_loop fuel output v bytes pos := by
+/-- the `while bytes > 64` loop = the model's loop (state components permuted), for every buffer.  The generated loop FAILS when its
+    fuel runs out (audit 3, F11), the model's loop stops silently; they agree whenever the fuel bounds the iterations (`bytes ≤ fuel`:
+    every iteration takes 32 off `bytes`) — the generated call passes `bytes + 1`: one unit pays for the last, false, test -/
+theorem hprime_loop1_eq : ∀ (fuel : Nat) (output : Bytes) (bytes pos : Nat) (v : Bytes), bytes ≤ fuel →
+    (hprime_loop1_src (fuel + 1) output bytes pos v).map (fun r => (r.1, r.2.2.2, r.2.1, r.2.2.1)) = hprime_loop fuel output v bytes pos := by
   intro fuel
   induction fuel with
-  | zero => intro output bytes pos v; rfl
+  | zero =>
+    intro output bytes pos v hf
+    have hb : ¬ bytes > 64 := by omega
+    simp only [hprime_loop1_src, hprime_loop, hb, if_false]; rfl
   | succ fuel ih =>
-    intro output bytes pos v
-    simp only [hprime_loop1_src, hprime_loop]
+    intro output bytes pos v hf
+    unfold hprime_loop1_src hprime_loop
     by_cases hb : bytes > 64
     · simp only [hb, if_true]
       cases Context.new Impl.Blake2.b 512 with
@@ -326,7 +331,7 @@ theorem hprime_loop1_eq : ∀ (fuel : Nat) (output : Bytes) (bytes pos : Nat) (v
             · by_cases h2 : 32 ≤ v'.length
               · simp only [h1, h2, and_self, not_true_eq_false, if_false, subU_32 bytes hb]
                 rw [← write32_setSlice _ _ _ h2]
-                exact ih _ _ _ _
+                exact ih _ (bytes - 32) _ _ (by omega)
               · simp [h1, h2]
             · simp [h1]
     · simp only [hb, if_false]; rfl
@@ -335,7 +340,7 @@ theorem hprime_loop1_inv : ∀ (fuel : Nat) (o : Bytes) (bytes pos : Nat) (v o' 
     hprime_loop1_src fuel o bytes pos v = some (o', b', p', v') → p' + b' = pos + bytes ∧ o'.length = o.length := by
   intro fuel
   induction fuel with
-  | zero => intro o bytes pos v o' b' p' v' h; simp only [hprime_loop1_src] at h; cases h; exact ⟨rfl, rfl⟩
+  | zero => intro o bytes pos v o' b' p' v' h; simp [hprime_loop1_src] at h
   | succ fuel ih =>
     intro o bytes pos v o' b' p' v' h
     simp only [hprime_loop1_src] at h
@@ -366,7 +371,7 @@ theorem hprime_loop1_congr : ∀ (fuel : Nat) (o1 o2 : Bytes) (bytes pos : Nat) 
       = (hprime_loop1_src fuel o2 bytes pos v).map (fun r => (r.1.take r.2.2.1, r.2.1, r.2.2.1, r.2.2.2)) := by
   intro fuel
   induction fuel with
-  | zero => intro o1 o2 bytes pos v _ ht; simp only [hprime_loop1_src, Option.map_some, ht]
+  | zero => intro o1 o2 bytes pos v _ ht; simp only [hprime_loop1_src, Option.map_none]
   | succ fuel ih =>
     intro o1 o2 bytes pos v hl ht
     simp only [hprime_loop1_src]
@@ -434,19 +439,19 @@ theorem hprime_src_eq (output input : Bytes) : hprime_src output input = hprime 
               have ht : (v0.take 32 ++ output.drop 32).take 32 = (setSlice (zeros output.length) 0 (v0.take 32)).take 32 := by
                 rw [e1, eM, write32_take _ _ _ (by omega) h2, write32_take _ _ _ (by rw [hz]; omega) h2]
                 simp
-              have hc := hprime_loop1_congr (output.length - 32) _ _ (output.length - 32) 32 v0 (l1.trans lM.symm) ht
-              rw [← hprime_loop1_eq]
-              cases hs : hprime_loop1_src (output.length - 32) (v0.take 32 ++ output.drop 32) (output.length - 32) 32 v0 with
+              have hc := hprime_loop1_congr (output.length - 32 + 1) _ _ (output.length - 32) 32 v0 (l1.trans lM.symm) ht
+              rw [← hprime_loop1_eq _ _ _ _ _ (Nat.le_refl _)]
+              cases hs : hprime_loop1_src (output.length - 32 + 1) (v0.take 32 ++ output.drop 32) (output.length - 32) 32 v0 with
               | none =>
                 rw [hs] at hc
-                cases hm : hprime_loop1_src (output.length - 32) (setSlice (zeros output.length) 0 (v0.take 32))
+                cases hm : hprime_loop1_src (output.length - 32 + 1) (setSlice (zeros output.length) 0 (v0.take 32))
                     (output.length - 32) 32 v0 with
                 | none => rfl
                 | some r => rw [hm] at hc; cases hc
               | some r1 =>
                 obtain ⟨o1, b1, p1, v1⟩ := r1
                 rw [hs] at hc
-                cases hm : hprime_loop1_src (output.length - 32) (setSlice (zeros output.length) 0 (v0.take 32))
+                cases hm : hprime_loop1_src (output.length - 32 + 1) (setSlice (zeros output.length) 0 (v0.take 32))
                     (output.length - 32) 32 v0 with
                 | none => rw [hm] at hc; cases hc
                 | some rM =>
